@@ -7,7 +7,7 @@ ID = "C17"
 LEVEL = "exploration"
 RULE = ("Hypothesis draws 2-3 instances for ONE process: encoder instances whose configurations differ deliberately in what is process-global in the library (superblock size via preset <= 4 vs >= 5, "
         "bit depth, ISA level via use_cpu_flags, resolution, logical_processors, pinning unpin=0) and optionally a decoder instance (threads 1 or 4, either pipeline bit depth) decoding a stream "
-        "produced beforehand, each driven by its own application thread with generated start offsets 0-400 ms so that one instance runs init / deinit_handle while another is mid-stream. "
+        "produced beforehand, each driven by its own application thread, either free-running with generated start offsets 0-400 ms (one instance runs init / deinit_handle while another is mid-stream) or phased (sessions built one after the other, all initialised before any sends, all drained before any is torn down: they overlap only while encoding). "
         "Oracle (differential): each instance's packets + recon (encoder) or decoded pictures (decoder) equal the output of the same instance run ALONE in a fresh process; no crash, no hang "
         "(deadlock signature). non-trivial = all instances completed in the concurrent run, their configurations differ in >= 1 global-affecting dimension and each instance has >= 4 pictures "
         "(lifetimes overlap); distinct = case hash.")
@@ -39,6 +39,10 @@ def enc_inst(draw):
         c["unpin"] = 0
     if draw(st.integers(0, 3)) == 0:
         c["tile_columns"] = 1
+    if draw(st.integers(0, 2)) == 0:
+        c["enable_tpl_la"] = 0          # the non-TPL QP-scaling path (no decode in this check, so the listed TPL0 decode finding does not matter)
+    if draw(st.integers(0, 3)) == 0:
+        c["hierarchical_levels"] = draw(st.sampled_from([3, 4, 5]))
     n = draw(st.integers(4, 12))
     if c["enc_mode"] <= 4:
         n = min(n, 6)
@@ -57,7 +61,19 @@ def strategy(tier):
             src = draw(enc_inst())["case"]
             src["cfg"]["recon_enabled"] = 0
             insts.append(dict(kind="dec", src=src, threads=draw(st.sampled_from([1, 4])), is16=draw(st.integers(0, 1)), delay_ms=draw(st.sampled_from([0, 50, 200]))))
-        return dict(insts=insts, asan=draw(st.booleans()))
+        # phased = sessions are constructed one after the other, all are initialised before any sends a picture and all are drained before any is
+        # torn down (the instances overlap only while encoding: the scenario that is clean on the pinned tree); free-running = generated start offsets
+        phased = draw(st.integers(0, 2)) > 0
+        if phased and draw(st.booleans()):
+            # same preset / bit depth / ISA level, different QP and content: nothing process-global differs between the instances
+            a, b = insts[0]["case"]["cfg"], insts[1]["case"]["cfg"]
+            for k in ("enc_mode", "encoder_bit_depth", "use_cpu_flags", "enable_tpl_la", "hierarchical_levels", "logical_processors"):
+                if k in a:
+                    b[k] = a[k]
+                else:
+                    b.pop(k, None)
+            b["qp"] = draw(st.sampled_from([x for x in (20, 35, 50) if x != a["qp"]]))
+        return dict(insts=insts, asan=draw(st.booleans()), phased=phased)
     return s()
 
 
@@ -108,6 +124,9 @@ def run_case(case, tier):
         if any(x["kind"] == "dec" for x in case["insts"]):
             gd.append("dec")
         gdims = "+".join(gd) or "same-globals"
+        if case.get("phased"):
+            env = dict(env or {}, SVTDRV_PHASED="1")
+            gdims = "phased|" + gdims
         conc = svt.run_encode(wcases[0], variant, timeout=400, env=env, extra_cases=wcases[1:])
         results += conc
         viol = []
@@ -155,7 +174,7 @@ def run_case(case, tier):
                         done += 1
         encs = [x["case"]["cfg"] for x in case["insts"] if x["kind"] == "enc"]
         differ = len({(c["enc_mode"] <= 4, c.get("encoder_bit_depth", 8), c.get("use_cpu_flags"), c["source_width"], c["source_height"], c["logical_processors"]) for c in encs}) > 1 or len(encs) < len(case["insts"])
-        classes = ["+".join(x["kind"] for x in case["insts"]), variant]
+        classes = ["+".join(x["kind"] for x in case["insts"]), variant, "phased" if case.get("phased") else "free_running"]
         sample = dict(instances=[(x["case"]["cfg"] if x["kind"] == "enc" else dict(dec_threads=x["threads"], is16=x["is16"])) for x in case["insts"]],
                       delays_ms=[x["delay_ms"] for x in case["insts"]], completed=done)
         return dict(violations=viol, nontrivial=done == len(case["insts"]) and differ, dkey=svt.case_hash(case), classes=classes, sample=sample)
